@@ -204,7 +204,12 @@ theorem dbSet_ok (o : FOps) (d d' : Db) (id : Int) (f : Field) (v : f.ty) (h : d
     ∃ r r', d.rows id = some r ∧ set o r f v = .ok r' ∧ d' = { d with tracks := aset id r' d.tracks } := by
   unfold dbSet at h
   cases hr : d.rows id with
-  | none => rw [hr] at h; cases h
+  | none =>
+    rw [hr] at h
+    simp only at h
+    split at h
+    · cases h
+    · split at h <;> cases h
   | some r =>
     rw [hr] at h
     simp only at h
@@ -216,6 +221,48 @@ theorem dbSet_ok (o : FOps) (d d' : Db) (id : Int) (f : Field) (v : f.ty) (h : d
     | ok r' => rw [hs] at h'; cases h'; exact ⟨r, r', rfl, hs, rfl⟩
     | throw e => rw [hs] at h'; cases h'
     | ub u => rw [hs] at h'; cases h'
+
+/-- On the handle of a track that is not (or no longer) in the database every setter throws. -/
+theorem dbSet_absent (o : FOps) (d : Db) (id : Int) (f : Field) (v : f.ty) (h : d.rows id = none) :
+    ∃ e, dbSet o d id f v = .throw e := by
+  unfold dbSet
+  rw [h]
+  simp only
+  by_cases hrs : f.rowSetter = true
+  · rw [if_pos hrs]; exact ⟨_, rfl⟩
+  · rw [if_neg hrs]
+    have hnb : f = .bpm → CeilInRange o := by
+      intro hf; subst hf; exact absurd rfl hrs
+    cases hs : set o blankRows f v with
+    | ok r' => exact ⟨_, rfl⟩
+    | throw e => exact ⟨e, rfl⟩
+    | ub u => exact absurd hs (set_defined o blankRows f v hnb u)
+
+theorem aget_filter_ne {β} (l : List (Int × β)) (k : Int) : aget k (l.filter fun e => e.1 ≠ k) = none := by
+  induction l with
+  | nil => rfl
+  | cons hd t ih =>
+    obtain ⟨k0, v0⟩ := hd
+    simp only [ne_eq, decide_not] at ih ⊢
+    by_cases hk : k0 = k
+    · simp [List.filter, hk, ih]
+    · simp [List.filter, hk, aget, ih]
+
+theorem aget_filter_other {β} (l : List (Int × β)) (k k' : Int) (h : k' ≠ k) :
+    aget k' (l.filter fun e => e.1 ≠ k) = aget k' l := by
+  induction l with
+  | nil => rfl
+  | cons hd t ih =>
+    obtain ⟨k0, v0⟩ := hd
+    simp only [ne_eq, decide_not] at ih ⊢
+    by_cases hk : k0 = k
+    · have : ¬ k0 = k' := fun e => h (e.symm.trans hk)
+      simp [List.filter, hk, aget, this, ih]
+      intro e; exact absurd e.symm h
+    · by_cases hk' : k0 = k'
+      · subst hk'
+        simp [List.filter, hk, aget]
+      · simp [List.filter, hk, aget, hk', ih]
 
 theorem dbSet_rows_same (o : FOps) (d d' : Db) (id : Int) (f : Field) (v : f.ty) (h : dbSet o d id f v = .ok d') :
     ∃ r r', d.rows id = some r ∧ set o r f v = .ok r' ∧ d'.rows id = some r' ∧ d'.schema = d.schema := by
@@ -381,7 +428,13 @@ theorem dbUpdate_inv (o : FOps) (d d' : Db) (x : Snap) (id : Int) (hinv : DbInv 
     (h : dbUpdate o d id x = .ok d') : DbInv d' := by
   unfold dbUpdate at h
   cases hp : d.rows id with
-  | none => rw [hp] at h; cases h
+  | none =>
+    rw [hp] at h
+    simp only at h
+    split at h
+    · cases h
+    · split at h <;> cases h
+    · cases h
   | some prior =>
     rw [hp] at h
     simp only at h
